@@ -156,7 +156,12 @@ def run(facts, rep, tier):
         m = ms_[0] if ms_ else {"arms": []}
         for a in m["arms"]:
             p = psrc(a["pat"])
-            state = re.search(r"StructPropertyState::(\w+)", p).group(1)
+            sm_ = re.search(r"StructPropertyState::(\w+)", p)
+            if sm_ is None:
+                rep.ob("C18.T1", "selector-arm-names-a-state:%s" % re.sub(r"[^A-Za-z_,()]", "", p)[:40], False,
+                       "selector arm `%s` does not name the property state it serves: the pairing of state, serde attribute and builder default cannot be read" % p[:80], a.get("sp"))
+                continue
+            state = sm_.group(1)
             pushed = [(facts.template_at(x["sp"]) or {}).get("text", "").replace(" ", "") for x, _ in walk(a["body"]) if x.get("k") == "macro" and x["name"] == "quote"]
             res = src(block_last(a["body"]))
             cell = "|".join(v.split("::")[-1] for v in pat_top_variants(a["pat"]["pats"][1])) if a["pat"].get("k") == "tuple" and len(a["pat"].get("pats", [])) == 2 else re.sub(r"[^A-Za-z]", "", p.split(",", 1)[1])[:24]
